@@ -35,8 +35,21 @@ OkLoad == /\ E.op = "load" /\ Exists(E.nm) /\ E.k = "ok"
                      ELSE \E len \in (RoundDiv(E.mn * sr, E.md) - 1)..(RoundDiv(E.mn * sr, E.md) + 1) :
                             len >= 0 /\ StopOK(len, E.mn * sr, E.md) /\ E.ret = SubSeq(f.ids, Min2(lo, n) + 1, Min2(lo + len, n))
           /\ pool' = Append(pool, [ids |-> E.ret, par |-> E.par]) /\ UNCHANGED fs
+\* a file written by other software (the harness): from then on part of the file system like any other
+OkPlant == /\ E.op = "plant" /\ E.k = "ok" /\ Put(E.nm, [nm |-> E.nm, fmt |-> E.fmt, hdr |-> E.hdr, ids |-> E.file]) /\ UNCHANGED pool
+\* a planted file of E.big samples (more than two million), loaded with skip / max_read beyond 2^20 samples: the event carries the first
+\* sample, the count and whether the bytes were the file's, not the ids
+OkBigLoad == /\ E.op = "bigload" /\ E.k = "ok"
+             /\ LET n == E.big  sr == E.par[1] IN
+                \E lo \in (RoundDiv(E.sn * sr, E.sd) - 1)..(RoundDiv(E.sn * sr, E.sd) + 1) :
+                  /\ lo >= 0 /\ (IF E.sn = 0 THEN lo = 0 ELSE StopOK(lo, E.sn * sr, E.sd))
+                  /\ E.first = Min2(lo, n) + 1 /\ E.match
+                  /\ IF E.mn = None THEN E.len = n - Min2(lo, n)
+                     ELSE \E len \in (RoundDiv(E.mn * sr, E.md) - 1)..(RoundDiv(E.mn * sr, E.md) + 1) :
+                            len >= 0 /\ StopOK(len, E.mn * sr, E.md) /\ E.len = Min2(lo + len, n) - Min2(lo, n)
+             /\ UNCHANGED <<pool, fs>>
 OkNumpy == /\ E.op = "numpy" /\ E.k = "ok" /\ E.arr = En!Window(E.b, E.sw, E.c) /\ UNCHANGED <<pool, fs>>
-Step == l <= Len(Ev) /\ l' = l + 1 /\ tid' = tid /\ (OkSave \/ OkLoad \/ OkNumpy)
+Step == l <= Len(Ev) /\ l' = l + 1 /\ tid' = tid /\ (OkSave \/ OkLoad \/ OkNumpy \/ OkPlant \/ OkBigLoad)
 TSpec == TInit /\ [][Step]_tvars
 Mon == TLCSet(tid, l)
 ASSUME \A t \in 1..Len(Traces) : TLCSet(t, 0)
